@@ -10,6 +10,8 @@ package main
 import (
 	"bytes"
 	"fmt"
+	"sync/atomic"
+	"time"
 
 	"github.com/syndtr/goleveldb/leveldb"
 	"github.com/syndtr/goleveldb/leveldb/opt"
@@ -72,14 +74,31 @@ func scenarioFailedCommitThenWrites(c *wk.Ctx, i int) {
 			}
 			txM.Put(k, v)
 		}
+		// No background commit may be in flight when the fault is armed: a compaction that is retrying its
+		// own commit keeps the commit lock for as long as the fault lasts, and Commit would wait behind it
+		// (blocking while a fault persists is C09's subject, not this scenario's).
+		leveldb.VerifBarrier(db)
 		// from now on the manifest cannot be synced (the bytes reach the file)
 		flt := st.AddFault(vstor.Fault{Kind: vstor.OpSync, Type: storage.TypeManifest, Nth: 1, Count: -1})
+		// safety net: the fault window ends by itself, so that the scenario cannot wait on it for ever
+		var expired int32
+		guard := time.AfterFunc(20*time.Second, func() { atomic.StoreInt32(&expired, 1); st.ClearFaults() })
 		cerr := tr.Commit()
 		if cerr == nil {
+			guard.Stop()
+			if atomic.LoadInt32(&expired) != 0 {
+				c.Count("scenario_fault_window_expired", 1)
+				return // not judged
+			}
 			c.Violation(i, "unexpected-success", "Commit succeeded although every manifest sync fails", wit())
 			return
 		}
 		tr.Discard()
+		guard.Stop()
+		if atomic.LoadInt32(&expired) != 0 {
+			c.Count("scenario_fault_window_expired", 1)
+			return // not judged
+		}
 		c.Count("scenario_commits_failed_on_manifest_sync", 1)
 		c.Count("scenario_manifest_sync_failures", int64(flt.Hits))
 		// The storage recovers right after the discard. (While the manifest cannot be synced no flush can be
